@@ -39,6 +39,27 @@ def gen_paths(rng, nd, K, budget):
     return out
 
 
+def block_pairs(full, rng):
+    """bounded-exhaustive: every pair of statements (copies and sums over x, y, z in every operand order; the first
+    one writes x, the rest follows by symmetry) as a nested block -- `if (c) { s1 s2 }`, `if (c) { s1 } else { s2 }`,
+    `{ s1 } s2`, `{ s1 s2 } z = z;`: the relation of a nested block lists only the block's own variables, in order of
+    first occurrence, and is then composed / summed with a relation listing them in another order or with more"""
+    vs = ['x', 'y', 'z']
+    copies = [f'{u} = {v};' for u in vs for v in vs if u != v]
+    sums = [f'{u} = {v} + {w};' for u in vs for v in vs for w in vs]
+    first = [s_ for s_ in copies + sums if s_.startswith('x =')]
+    out = ['int f(int c,int x,int y,int z){ if (c) { x = y; y = x + z; } }',
+           'int f(int c,int x,int y,int z){ if (c) { y = x + z; } else { x = y; } }']
+    k = rng.randint(0, 2)
+    for s1 in first:
+        for s2 in copies + sums:
+            for ctxt in ('if (c) { %s %s }', 'if (c) { %s } else { %s }', '{ %s } %s', '{ %s %s } z = z;'):
+                k += 1
+                if full or k % 3 == 0:
+                    out.append('int f(int c,int x,int y,int z){ ' + ctxt % (s1, s2) + ' }')
+    return out
+
+
 def run(ctx):
     from pymwp import Analysis, Coverage, Bound
     rng = ctx.rng
@@ -62,6 +83,7 @@ def run(ctx):
         srcs.append(FCm.shift_loop(rng, plain=(i % 2 == 0)))
     for i in range(ctx.budget(16, 300)):
         srcs.append(FCm.dependent_family(rng))
+    srcs += block_pairs(ctx.tier == 'thorough', rng)
     for i in range(ctx.budget(220, 2500)):
         g = Gen(rng, Opts(sugar=False, consts=False, max_bin=5, max_stmts=3, nvars=rng.choice([3, 4])))
         s = g.function()
